@@ -262,11 +262,12 @@ def callDecode (G : GenLayer) (cfg : Config) (st : State) (i : Input) (payload :
     -- address claim: update the source map, possibly reuse the known identity
     let claim : Option (State × Option IsoName × Bool) :=    -- (state, identity, stop-here)
       if m.pgn = isoClaimPgn then
+        let name := dataInt % 18446744073709551616      -- the NAME is the first 64 bits of the payload
         match lookupSrc st.sources i.src with
         | some old =>
-          if old.name = dataInt then some (st, some old, cfg.isoClaimFilter)
-          else (mkIsoName m dataInt).map (fun n => ({ st with sources := setSrc st.sources i.src n }, some n, cfg.isoClaimFilter))
-        | none => (mkIsoName m dataInt).map (fun n => ({ st with sources := setSrc st.sources i.src n }, some n, cfg.isoClaimFilter))
+          if old.name = name then some (st, some old, cfg.isoClaimFilter)
+          else (mkIsoName m name).map (fun n => ({ st with sources := setSrc st.sources i.src n }, some n, cfg.isoClaimFilter))
+        | none => (mkIsoName m name).map (fun n => ({ st with sources := setSrc st.sources i.src n }, some n, cfg.isoClaimFilter))
       else some (st, iso, false)
     match claim with
     | none => (st, .raised)
